@@ -464,7 +464,13 @@ def fl_div(x, y):
 
 def _approx(f, v, up):
     """f(v) as a rational, pushed outward by a relative 1e-12 (transcendental end-points are not exact)."""
-    r = f(float(v))
+    fv = float(v)
+    if fv == 0.0 and v != 0:
+        fv = 5e-324 if v > 0 else -5e-324       # magnitudes below the double range: evaluate at the smallest double
+    try:
+        r = f(fv)
+    except (ValueError, OverflowError):
+        return NINF if not up else INF
     if r == INF or r == NINF or r != r:
         return r
     q = Fraction(r)
@@ -992,3 +998,75 @@ def in_refine(x, op, y, truth):
             if hi == y.lo:
                 hi -= 1
     return In(lo, hi, x.bits, x.signed)
+
+
+# ---------------------------------------------------------------------------------------- IEEE rounding of exact results (optional mode)
+FMT = {64: (53, -1022, 1023), 32: (24, -126, 127)}
+
+
+def round_to_format(x, bits):
+    """Round an exact rational to the nearest value of binary32/binary64 (ties to even). Returns a Fraction, or +-inf (float) on overflow."""
+    if x == 0:
+        return Fraction(0)
+    p, emin, emax = FMT[bits]
+    sign = -1 if x < 0 else 1
+    a = -x if x < 0 else x
+    # exponent e with 2^e <= a < 2^(e+1)
+    e = a.numerator.bit_length() - a.denominator.bit_length()
+    if Fraction(2) ** e > a:
+        e -= 1
+    elif Fraction(2) ** (e + 1) <= a:
+        e += 1
+    e = max(e, emin)                      # subnormals share the exponent emin
+    q = a / (Fraction(2) ** (e - p + 1))  # significand scaled to an integer grid
+    n = q.numerator // q.denominator
+    rem = q - n
+    if rem > Fraction(1, 2) or (rem == Fraction(1, 2) and n % 2 == 1):
+        n += 1
+    r = Fraction(n) * Fraction(2) ** (e - p + 1)
+    if r >= Fraction(2) ** (emax + 1):
+        return INF if sign > 0 else NINF
+    return r * sign
+
+
+def fl_round(v, bits):
+    """IEEE-range view of a value computed over the reals: exact points are rounded to the format (overflow -> inf, underflow -> 0);
+    intervals that leave the finite range gain the corresponding infinity, intervals reaching below half the smallest subnormal gain 0."""
+    if not v.ivs:
+        return v
+    p, emin, emax = FMT[bits]
+    fmax = (2 - Fraction(2) ** (1 - p)) * Fraction(2) ** emax
+    tiny = Fraction(2) ** (emin - p + 1) / 2          # half of the smallest subnormal
+    out = []
+    pinf, ninf, nz = v.pinf, v.ninf, v.nz
+    for lo, lc, hi, hc in v.ivs:
+        if lo == hi:
+            r = round_to_format(lo, bits)
+            if r == INF:
+                pinf = True
+            elif r == NINF:
+                ninf = True
+            elif r == 0 and lo != 0:
+                if lo < 0:
+                    nz = True
+                else:
+                    out.append((Fraction(0), True, Fraction(0), True))
+            else:
+                out.append((r, True, r, True))
+            continue
+        nlo, nlc, nhi, nhc = lo, lc, hi, hc
+        if hi == INF or hi > fmax:
+            pinf = True
+            nhi, nhc = fmax, True
+        if lo == NINF or lo < -fmax:
+            ninf = True
+            nlo, nlc = -fmax, True
+        if nlo > nhi:
+            continue
+        # values of tiny magnitude round to a zero of their sign
+        if nlo < tiny and nhi > 0 and not (nlo <= 0 and (nlo < 0 or nlc)):
+            out.append((Fraction(0), True, Fraction(0), True))
+        if nhi > -tiny and nlo < 0 and not (nhi >= 0 and (nhi > 0 or nhc)):
+            nz = True
+        out.append((nlo, nlc, nhi, nhc))
+    return Fl(out, pinf, ninf, v.nan, nz)
